@@ -15,7 +15,7 @@
   `Realloc s s' ptr np n total` : the first `n` bytes of `[np, …)` in `s'` equal those of `[ptr, …)`
   in `s`, and no byte of a chunk of `s` outside `[np, np+total)` changed.
 -/
-import BumpProof.Lemmas.MemFresh
+import BumpProof.Lemmas.MemEx
 
 namespace C02
 open Arena Rs
@@ -218,5 +218,48 @@ theorem grow_zeroed {cfg : Cfg} {s s1 s2 : State} {ptr oldSize np : Nat} {newL :
   · rw [zeroRange_read_out h2 (by omega)]; exact hr.prefix_eq k hk
   · exact zeroRange_read_in hwf1 h2 (by omega) (by omega)
   · rw [zeroRange_read_out h2 (by omega)]; exact hr.frame a ha hin
+
+/-! ## Non-vacuity: concrete states / inputs meeting the hypotheses (see `Lemmas/MemEx.lean`) -/
+
+section NonVacuity
+open Arena.Ex
+
+example : MemWF stUp ∧ HeadFresh stUp ∧ ∀ k, k < 8 → InChunks stUp (96 + k) :=
+  ⟨stUp_wf, stUp_fresh, fun k hk => stUp_in _ (by omega) (by omega)⟩
+example : MemWF stDown ∧ HeadFresh stDown ∧ ∀ k, k < 8 → InChunks stDown (80 + k) :=
+  ⟨stDown_wf, stDown_fresh, fun k hk => stDown_in _ (by omega) (by omega)⟩
+
+-- writes / copies / zeroing that succeed
+example : ∃ s', writeRange cfgUp stUp 96 104 (fun _ => 1) = .ok s' := ⟨_, rfl⟩
+example : ∃ s', copyBytes cfgUp stUp 96 100 8 false = .ok s' := ⟨_, rfl⟩      -- overlapping memmove
+example : ∃ s', zeroRange cfgUp stUp 96 8 = .ok s' := ⟨_, rfl⟩
+-- the operations on the example states: every theorem above has an instance
+example : ∃ s' p, alloc cfgUp stUp { size := 8, align := 8 } = .ok (s', .ok p) := ⟨_, _, rfl⟩
+example : ∃ s', deallocate cfgUp stUp 96 8 = .ok s' := ⟨_, rfl⟩
+example : ∃ s' r, reserve cfgUp stUp 8 = .ok (s', r) := ⟨_, _, rfl⟩
+example : ∃ s', resetTo cfgUp stUp { cur := .chunk 0, addr := 96 } = .ok s' := ⟨_, rfl⟩
+example : ∃ s', alignTo cfgUp stUp 8 = .ok s' := ⟨_, rfl⟩
+example : InChunks (reset cfgUp stUp) 100 ∧ ChunksDisjoint stUp.chunks :=
+  ⟨⟨chunkUp.resetPos cfgUp, by simp [reset, stUp], by decide, by decide⟩, stUp_wf.1⟩
+example : ∃ s' np, grow cfgUp stUp 96 8 { size := 16, align := 1 } = .ok (s', .ok np) := ⟨_, _, rfl⟩
+example : ∃ s' np, grow cfgDown stDown 80 8 { size := 12, align := 1 } = .ok (s', .ok np) := ⟨_, _, rfl⟩
+-- a grow that must move the block into a freshly granted chunk
+example : MemWF stUpR ∧ HeadFresh stUpR := ⟨stUpR_wf, stUpR_fresh⟩
+set_option maxRecDepth 100000 in
+example : ∃ s' np, grow cfgUp stUpR 96 8 { size := 200, align := 1 } = .ok (s', .ok np) := ⟨_, _, rfl⟩
+example : ∃ s' r, shrink cfgUp stUp 96 8 { size := 4, align := 1 } = .ok (s', .ok r) := ⟨_, _, rfl⟩
+example : ∃ s' r, shrink cfgDown stDown 80 8 { size := 4, align := 1 } = .ok (s', .ok r) := ⟨_, _, rfl⟩
+example : ∃ s' r, shrinkWithoutShrink cfgUp stUp 96 8 { size := 4, align := 1 } = .ok (s', .ok r) := ⟨_, _, rfl⟩
+example : ∃ s' r, shrinkSlice cfgDown stDown 80 8 4 1 = .ok (s', some r) := ⟨_, _, rfl⟩
+example : ∃ s', shrinkSlice cfgUp { stUp with chunks := [{ chunkUp with pos := 112 }] } 96 8 4 1 = .ok (s', none) :=
+  ⟨_, rfl⟩
+example : ∃ s' r, allocatePrepared cfgUp stUp 4 104 128 true = .ok (s', r) := ⟨_, _, rfl⟩
+example : ∃ s' r, allocatePreparedSlice cfgUp stUp 128 2 3 4 4 true = .ok (s', r) := ⟨_, _, rfl⟩
+example : ∃ s1 p s2, alloc cfgUp stUp { size := 8, align := 8 } = .ok (s1, .ok p) ∧
+    zeroRange cfgUp s1 p 8 = .ok s2 := ⟨_, _, _, rfl, rfl⟩
+example : ∃ s1 np s2, grow cfgUp stUp 96 8 { size := 16, align := 1 } = .ok (s1, .ok np) ∧
+    zeroRange cfgUp s1 (np + 8) (16 - 8) = .ok s2 := ⟨_, _, _, rfl, rfl⟩
+
+end NonVacuity
 
 end C02
